@@ -108,6 +108,6 @@ def plan(tier):
     p.bound = "Dense: base in %s, span in %s, every position class of the written row; Sparse: <= 3 entries; one step" % (list(bases), list(spans))
     p.not_covered = ("spans above 3 except the packed 64-row growth shapes, String columns, ColumnStore key index and clear_row, "
                      "the real 1024-entry promotion threshold, FxHashMap itself")
-    p.per_harness_timeout = 400 if tier == "quick" else 1500
-    p.total_timeout = 1700 if tier == "quick" else 7000
+    p.per_harness_timeout = 900 if tier == 'quick' else 1500
+    p.total_timeout = 2700 if tier == 'quick' else 7000
     return p
